@@ -469,3 +469,39 @@ Definition full_flag_of (d : doc) (line col : N) (answer : res (option (list ite
   else 0%N.
 
 Definition full_flag (d : doc) (line col : N) : N := full_flag_of d line col (propose d line col).
+
+(* ---- executable well-formedness of the tree, as far as `propose` depends on it: every global
+   declaration and every statement (they all sit behind a Reference) has a range that starts at its
+   own Reference (i_s = 0), is not empty and lies inside its parent's range / the token vector
+   (CompletionProofs.propose_total: then `propose` never panics) ---- *)
+Fixpoint stmt_wf_b (s : stmt) : bool :=
+  Nat.eqb (i_s (stmt_info s)) 0 && Nat.ltb 0 (i_e (stmt_info s)) &&
+  let child (o : option (stmt * nat)) : bool :=
+    match o with
+    | Some (c, off) => Nat.leb (off + i_e (stmt_info c)) (i_e (stmt_info s)) && stmt_wf_b c
+    | None => true
+    end in
+  match s with
+  | SIf _ t e _ => child t && child e
+  | SWhile _ b _ => child b
+  | SBlock body _ =>
+      (fix go (l : list (stmt * nat)) : bool :=
+         match l with
+         | [] => true
+         | (c, off) :: r => Nat.leb (off + i_e (stmt_info c)) (i_e (stmt_info s)) && stmt_wf_b c && go r
+         end) body
+  | _ => true
+  end.
+
+Definition child_wf_b (len : nat) (co : stmt * nat) : bool :=
+  Nat.leb (snd co + i_e (stmt_info (fst co))) len && stmt_wf_b (fst co).
+
+Definition decl_cwf_b (toks : list token) (go : gdecl * nat) : bool :=
+  Nat.eqb (i_s (gdecl_info (fst go))) 0 && Nat.ltb 0 (i_e (gdecl_info (fst go)))
+  && Nat.leb (snd go + i_e (gdecl_info (fst go))) (length toks)
+  && match fst go with
+     | GProc pd => forallb (child_wf_b (i_e (pd_info pd))) (pd_stmts pd)
+     | _ => true
+     end.
+
+Definition compl_wf_b (d : doc) : bool := forallb (decl_cwf_b (d_toks d)) (pg_decls (d_ast d)).
